@@ -13,7 +13,8 @@ RULE = ("A case is (device id, wall-clock epoch + jumps, sequence of 1-4 LAN.sen
         "16 boundary ids x 6 boundary epochs; part 'random' draws ids, clocks, contents (incl. tails that look like "
         "PKCS7 padding; some frames are handed over in a bytearray and the same buffer object is sent in two "
         "exchanges). Distinct = distinct (id, epoch, frames); non-trivial = every case (each exercises both codec "
-        "directions against the independent implementation).")
+        "directions against the independent implementation)."
+        " Later additions: frames handed over as bytearray with the same buffer sent in two exchanges.")
 ASSUMPTIONS = [
     "reference V2 codec (refmodel/codec.py) is calibrated against the captured real-device packet",
     "AES-128-ECB and MD5 primitives are trusted (pycryptodome/hashlib) on both sides",
